@@ -318,6 +318,14 @@ def std_case(draw, tier="quick"):
             "functional": draw(st.booleans()), "tcr_precision": draw(st.sampled_from(["gene", "allele"])),
             "mhc_precision": draw(st.sampled_from(["gene", "protein", "allele"])), "strict": draw(st.booleans()),
             "standardize": draw(st.integers(0, 5)) != 0}
+    if draw(st.integers(0, 4)) == 0:
+        # the raw table has the V and J columns under each other's names: the mapper swaps them (a simultaneous rename)
+        for a, b in (("TRBV", "TRBJ"), ("TRAV", "TRAJ")):
+            ca = [c for c in cols if c["std"] == a]
+            cb = [c for c in cols if c["std"] == b]
+            if ca and cb:
+                ca[0]["name"], cb[0]["name"] = b, a
+                break
     case = {"columns": cols, "rows": rows, "options": opts, "extra": draw(st.lists(st.sampled_from(["clone_count", "sample", "note"]), unique=True, max_size=3)),
             "index": draw(st.sampled_from(["default", "str", "rev", "dup", "mixed"]))}
     if draw(st.booleans()):
